@@ -1,10 +1,10 @@
 //@integration verif_c19_teardown
 //@props C19
 // C19 whole-endpoint teardown accounting (the part no Kani harness reaches): a counting global allocator (per-thread
-// balance of live bytes; endpoints run on the test thread) and four connection life cycles over loopback, each run once to
+// balance of live bytes; endpoints run on the test thread) and five scenarios over loopback, each run once to
 // warm up lazily initialised std state and then again: the second run must return the thread's live bytes to where they
 // were (bytes by the Layout sizes passed to alloc/dealloc, so a deallocation with a wrong size unbalances it as well, and the
-// number of live allocations).  BOUNDED: four concrete scenarios, real sockets on ephemeral ports.
+// number of live allocations).  BOUNDED: five concrete scenarios, real sockets on ephemeral ports.
 use std::alloc::{GlobalAlloc, Layout, System};
 use std::cell::Cell;
 use std::time::{Duration, Instant};
@@ -134,9 +134,46 @@ fn scenario_server_dropped_active() {
     drop(c);
 }
 
+/// the frame checksum, bit by bit (src/frame/serial/crc.rs: reflected polynomial 0x9960034C, register preset to all ones,
+/// result complemented)
+fn crc(data: &[u8]) -> u32 {
+    let mut reg = !0u32;
+    for &b in data { reg ^= b as u32; for _ in 0..8 { reg = if reg & 1 != 0 { (reg >> 1) ^ 0x9960034C } else { reg >> 1 }; } }
+    !reg
+}
+/// one large-header datagram (14 bytes of header) with `len` payload bytes
+fn large_datagram(seq: u32, len: usize) -> Vec<u8> {
+    let mut d = vec![0xC0u8, (len >> 8) as u8, len as u8, (seq >> 16) as u8 & 0x0F, (seq >> 8) as u8, seq as u8, 0, 0, 0, 0, 0, 0, 0, 0];
+    d.extend(std::iter::repeat(0x5A).take(len));
+    d
+}
+fn data_frame(frame_id: u32, count: u8, body: &[u8]) -> Vec<u8> {
+    let mut f = vec![10u8, (frame_id >> 24) as u8, (frame_id >> 16) as u8, (frame_id >> 8) as u8, frame_id as u8, count & 0x7F];
+    f.extend_from_slice(body);
+    let c = crc(&f);
+    f.extend_from_slice(&c.to_be_bytes());
+    f
+}
+/// E: CRC-valid data frames that turn out malformed only after a complete datagram was parsed (truncated second datagram,
+/// over-announced count, trailing byte), from an address the server has never heard of: parsed and rejected, nothing kept
+fn scenario_malformed_frames() {
+    let mut s = server(5000);
+    let peer = std::net::UdpSocket::bind("127.0.0.1:0").unwrap();
+    let good = large_datagram(1, 1000);
+    let mut truncated = good.clone(); truncated.extend_from_slice(&large_datagram(2, 1000)[..9]);
+    let mut trailing = good.clone(); trailing.push(0);
+    let frames = [data_frame(1, 2, &truncated), data_frame(2, 3, &good), data_frame(3, 1, &trailing), data_frame(4, 1, &good)];
+    for _ in 0..8 {
+        for f in frames.iter() { let _ = peer.send_to(f, s.address()); }
+        pump(&mut s, None, 10);
+    }
+}
+
 #[test]
 fn verif_c19_endpoint_teardown_returns_all_memory() {
-    let scenarios: [(&str, fn()); 4] = [
+    assert_eq!(crc(b""), 0, "crc transcription");
+    let scenarios: [(&str, fn()); 5] = [
+        ("E malformed data frames from a stranger", scenario_malformed_frames),
         ("A timeout mid-transfer", scenario_timeout_mid_transfer), ("B graceful disconnect", scenario_graceful),
         ("C pending entry dropped", scenario_pending_dropped), ("D server dropped while active", scenario_server_dropped_active)];
     for (name, f) in scenarios.iter() {
